@@ -28,7 +28,10 @@ def run(ctx):
     if ctx.replay:
         beh = [json.load(open(ctx.replay))["detail"]["behaviour"]]
     else:
-        beh = cscommon.directed(ctx) + cscommon.env_behaviours(ctx, ctx.pick(40, 400), max_crash=2, max_ops=ctx.pick(14, 18))
+        beh = (cscommon.directed(ctx)
+               + (cscommon.crash_sweep(ctx, bases=("sweep-relock-other", "sweep-commit-before-proposal"), ks=(0, 3), modes=("synced",))
+                  if ctx.quick() else cscommon.crash_sweep(ctx, ks=(0, 1, 2, 3, 4, 6), modes=("synced", "torn")))
+               + cscommon.env_behaviours(ctx, ctx.pick(40, 400), max_crash=2, max_ops=ctx.pick(14, 18)))
         if not ctx.quick():
             # the disagreement behaviours that TLC finds in the sensitivity configuration of CsAbstract (lock round not
             # persisted on re-lock), compiled into schedules: the repaired engine must refuse to follow them
